@@ -654,7 +654,7 @@ def _build_table():
             FLOAT_INVALID,
             **{
                 "negative": lambda rng, tw, tgt: rng.choice([F(-1.0), I(-2)]),
-                "none-fails-in-validator": lambda rng, tw, tgt: NONE,
+                # `cell.volume = None` is accepted since the repair of volume._ensure_positive (it unsets the volume)
                 "out-of-range-huge": lambda rng, tw, tgt: HUGE,
             },
         ),
